@@ -1,11 +1,11 @@
 package main
 
 import (
-	"sync"
 	"errors"
 	"fmt"
 	"net"
 	"net/netip"
+	"sync"
 	"sync/atomic"
 	"time"
 
@@ -134,21 +134,21 @@ type hlink struct {
 
 var hlinkQueueMu sync.Mutex
 
-func (l *hlink) String() string                 { return fmt.Sprintf("hlink %s->%s", l.from.name, l.to.name) }
-func (l *hlink) Peer() netip.Addr               { return l.to.id.IP }
-func (l *hlink) SwitchLabel() m.SwitchLabel     { return l.label }
-func (l *hlink) GeoMark() string                { return "" }
-func (l *hlink) PeeringURL() *m.PeeringURL      { return nil }
-func (l *hlink) Outgoing() bool                 { return false }
-func (l *hlink) Lite() bool                     { return l.lite }
-func (l *hlink) LocalAddr() net.Addr            { return &net.TCPAddr{} }
-func (l *hlink) RemoteAddr() net.Addr           { return &net.TCPAddr{} }
-func (l *hlink) Started() time.Time             { return l.started }
-func (l *hlink) Uptime() time.Duration          { return time.Since(l.started) }
-func (l *hlink) Latency() uint16                { return l.latency }
+func (l *hlink) String() string                   { return fmt.Sprintf("hlink %s->%s", l.from.name, l.to.name) }
+func (l *hlink) Peer() netip.Addr                 { return l.to.id.IP }
+func (l *hlink) SwitchLabel() m.SwitchLabel       { return l.label }
+func (l *hlink) GeoMark() string                  { return "" }
+func (l *hlink) PeeringURL() *m.PeeringURL        { return nil }
+func (l *hlink) Outgoing() bool                   { return false }
+func (l *hlink) Lite() bool                       { return l.lite }
+func (l *hlink) LocalAddr() net.Addr              { return &net.TCPAddr{} }
+func (l *hlink) RemoteAddr() net.Addr             { return &net.TCPAddr{} }
+func (l *hlink) Started() time.Time               { return l.started }
+func (l *hlink) Uptime() time.Duration            { return time.Since(l.started) }
+func (l *hlink) Latency() uint16                  { return l.latency }
 func (l *hlink) AddMeasuredLatency(time.Duration) {}
-func (l *hlink) BytesIn() uint64                { return 0 }
-func (l *hlink) BytesOut() uint64               { return 0 }
+func (l *hlink) BytesIn() uint64                  { return 0 }
+func (l *hlink) BytesOut() uint64                 { return 0 }
 func (l *hlink) FlowControlIndicator() frame.FlowControlFlag {
 	return frame.FlowControlFlagIncreaseFlow
 }
@@ -203,9 +203,9 @@ func (w *rworld) connect(a, b *rnode, labelA, labelB m.SwitchLabel) (la, lb *hli
 
 type deliverResult struct {
 	switchErr, switchWorkerErr error
-	routerErrs                  []error
-	routerWorkerErrs            []error
-	parseErr                    error
+	routerErrs                 []error
+	routerWorkerErrs           []error
+	parseErr                   error
 }
 
 func (r deliverResult) panicked() bool {
